@@ -1,34 +1,62 @@
-"""facts_C12.py -- structural facts of the connection input path copied into coq/Gen/FactsC12.v (C12).
+"""facts_C12.py -- what the connection input path DOES, copied into coq/Gen/FactsC12.v (property C12).
 
-`ast` only; grpclib is never imported.  Fail-closed: a statement or call shape that is not recognised
-raises Unsupported, the generated file disappears and Props/C12.v stops compiling (tie broken).
+`ast` only; grpclib is never imported.  Fail-closed: an expression or statement kind this file cannot
+summarise raises Unsupported, the generated file disappears and Props/C12.v stops compiling (tie broken).
 
 Model/Dispatch.v is a hand transcription of EventsProcessor.process / process_* / close,
-H2Protocol.data_received, Connection.ack and the two Handler classes.  What is extracted here is the
-SHAPE that transcription relies on, so that a change of shape in the source breaks the theorem
-C12_source_shape deterministically (the behaviour itself is tied by the correspondence runs):
+H2Protocol.data_received / connection_lost, Connection.ack, Stream.__ended__ / __terminated__ /
+closable / reset_nowait and the two Handler classes.  The theorem C12_source_shape compares, for each
+of these functions, an EFFECT SUMMARY computed here with the one the transcription was made from.  The
+summary is about meaning, not spelling:
 
-  * EventsProcessor.process: one try; the looked-up expression; for each `except` its exception class
-    and whether its body ignores (pass / log call only) or raises; the `else` call
-  * for every method named in EventsProcessor.processors, EventsProcessor.close, Connection.ack,
-    H2Protocol.data_received / connection_lost, client Handler.accept/cancel/close and server
-    Handler.accept/cancel/close: the sequence of "effect tokens" in source order -- calls on
-    self / stream / value / task objects, subscripts of self.streams, `raise X`, `del`, `pass`,
-    attribute assignments -- with `try`/`except`/`else`, `if`/`else` and `for` markers
-  * the reason strings passed to close() / __terminated__ (used by the driver to classify
-    StreamTerminatedError texts, so the driver does not carry copies of them)
+  * it is a SET (sorted, duplicates removed): order of independent statements, if/elif/else versus early
+    returns, try/except/else versus try/except + following statements, loops over a temporary list do
+    not matter; docstrings, comments, annotations, asserts, logging, `return` and `pass` are ignored;
+  * private helpers are SEEN THROUGH: a call of a `_private` method of the same class (also static /
+    class methods) or of a `_private` function of the module is replaced by the effects of its body,
+    and its value by what it may return;
+  * local names do not matter: a local is replaced by what it may hold (all its assignments, any branch;
+    loop variables hold the elements); values are abstracted to the set of ATOMS they are made of --
+    string constants, `event.<field>`, parameters by position, `self.<path>`, `len(...)`, and the role
+    names `stream` (anything obtained from the stream registry / create_stream) and `task` (anything
+    obtained from the task table / create_task);
+  * what is recorded:
+      get / index / values / pop[/n] / setitem / del   on  self.<container>     (tolerant versus raising lookups)
+      call <receiver path>.<method>(<atoms of arg 1>; <atoms of arg 2>; ...)
+      set <target path> <- <atoms>
+      raise <Exception>, catch <Exceptions of a try>, del[-tolerant] <target>
+      test <atoms>   for conditions on the event's fields or on parameters (never for None / hasattr guards)
+  * EventsProcessor.process is summarised by what matters for dispatch: is a missing `processors`
+    attribute tolerated, is a missing key tolerated (each by try/except OR by getattr/hasattr/.get/`in`),
+    is the handler called with the event, does the function raise.
 """
 import ast
 
-from extract_facts import Unsupported, parse, zs, func_node
+from extract_facts import Unsupported, parse, zs
 
-# calls that have no effect on the modelled state
-PURE_CALLS = {'len', 'time.monotonic', 'hasattr', 'cast', 'str', 'int', 'partial'}
-ROOTS = ('self', 'stream', 'value', 'task', '_stream', 'proc', 'log', 'events', 'event', 'release_stream')
+LOG_ROOTS = {'log', 'logging', 'logger'}
+PURE_FUNCS = {'len', 'list', 'tuple', 'set', 'frozenset', 'sorted', 'iter', 'cast', 'str', 'int', 'bool',
+              'partial', 'isinstance', 'dict'}
+# what comes out of the stream registry is a `stream`; what comes out of a PRIVATE container of a handler
+# (its task tables, whatever they are called) or of create_task is a `task`
+STREAM_SOURCES = {('self.streams', 'get'), ('self.streams', 'values'), ('self.streams', '[]'),
+                  ('self.streams', 'pop'), ('self.connection', 'create_stream')}
+TASK_SOURCES = {('self._', 'pop'), ('self._', 'values'), ('self._', '[]'), ('self._', 'get'),
+                ('self.loop', 'create_task')}
+MAX_DEPTH = 4
 
 
 def u(n):
     return ast.unparse(n)
+
+
+def private(name):
+    return name.startswith('_') and not (name.startswith('__') and name.endswith('__'))
+
+
+def anon(path):
+    """private attribute names are spelling: self._tasks.pop -> self._.pop"""
+    return '.'.join('_' if private(c) and i > 0 else c for i, c in enumerate(path.split('.')))
 
 
 def need(c, what):
@@ -43,137 +71,438 @@ def strip_doc(body):
     return body
 
 
-def expr_tokens(e, out):
-    """effect tokens of an expression, evaluation order (arguments before the call itself)"""
-    if isinstance(e, ast.Call):
-        name = u(e.func)
-        if isinstance(e.func, ast.Attribute):
-            expr_tokens(e.func.value, out)
-        for a in e.args:
-            expr_tokens(a, out)
-        for k in e.keywords:
-            expr_tokens(k.value, out)
-        root = name.split('.')[0].split('(')[0]
-        if name in PURE_CALLS or name.endswith('.format'):
-            return
-        if name.startswith('log.'):
-            out.append('log')
-            return
-        if name[:1].isupper() and '.' not in name:
-            out.append('new ' + name)           # constructor (exception, Stream)
-            return
-        if name == 'request_handler':
-            out.append('call request_handler')  # the coroutine object handed to create_task
-            return
-        need(root in ROOTS, 'call on an unknown object: ' + name)
-        out.append('call ' + name + '/%d' % (len(e.args) + len(e.keywords)))
-    elif isinstance(e, ast.Subscript):
-        expr_tokens(e.value, out)
-        expr_tokens(e.slice, out)
-        if u(e.value) in ('self.streams', 'self.processors', 'self._tasks'):
-            out.append('index ' + u(e.value))
-    elif isinstance(e, ast.Attribute):
-        expr_tokens(e.value, out)
-    elif isinstance(e, (ast.Name, ast.Constant)):
-        pass
-    elif isinstance(e, ast.Compare):
-        expr_tokens(e.left, out)
-        for c in e.comparators:
-            expr_tokens(c, out)
-    elif isinstance(e, ast.BoolOp):
-        for v in e.values:
-            expr_tokens(v, out)
-    elif isinstance(e, ast.UnaryOp):
-        expr_tokens(e.operand, out)
-    elif isinstance(e, ast.BinOp):
-        expr_tokens(e.left, out)
-        expr_tokens(e.right, out)
-    elif isinstance(e, (ast.Tuple, ast.List)):
-        for x in e.elts:
-            expr_tokens(x, out)
-    elif isinstance(e, ast.JoinedStr):
-        pass
-    elif isinstance(e, ast.Lambda):
-        out.append('lambda')
-    else:
-        raise Unsupported('C12 facts: expression ' + type(e).__name__ + ': ' + u(e))
+class Scope:
+    """functions that may be inlined: private methods of the class, private functions of the module"""
+
+    def __init__(self, tree, cls):
+        self.cls = cls
+        self.methods, self.funcs = {}, {}
+        for n in tree.body:
+            if isinstance(n, ast.ClassDef) and n.name == cls:
+                for m in n.body:
+                    if isinstance(m, (ast.FunctionDef, ast.AsyncFunctionDef)):
+                        self.methods[m.name] = m
+            elif isinstance(n, ast.FunctionDef):
+                self.funcs[n.name] = n
+
+    private = staticmethod(private)
+
+    def helper(self, call):
+        """-> (FunctionDef, skip_first_param) if `call` is a call of an inlinable private helper"""
+        f = call.func
+        if isinstance(f, ast.Attribute) and isinstance(f.value, ast.Name) and self.private(f.attr) \
+                and f.attr in self.methods and f.value.id in ('self', 'cls', self.cls):
+            fn = self.methods[f.attr]
+            static = any(u(d) in ('staticmethod',) for d in fn.decorator_list)
+            return fn, (not static)
+        if isinstance(f, ast.Name) and self.private(f.id) and f.id in self.funcs:
+            return self.funcs[f.id], False
+        return None
 
 
-def stmt_tokens(body, out):
-    for s in strip_doc(body):
-        if isinstance(s, ast.Pass):
-            out.append('pass')
-        elif isinstance(s, ast.Expr):
-            expr_tokens(s.value, out)
-        elif isinstance(s, ast.Assign):
-            expr_tokens(s.value, out)
-            for t in s.targets:
-                if isinstance(t, ast.Attribute):
-                    out.append('set ' + u(t))
-                elif isinstance(t, ast.Subscript):
-                    expr_tokens(t.value, out)
-                    out.append('setitem ' + u(t.value))
-                else:
-                    need(isinstance(t, (ast.Name, ast.Tuple)), 'assignment target ' + u(t))
-        elif isinstance(s, ast.AugAssign):
-            expr_tokens(s.value, out)
-            out.append('set ' + u(s.target))
-        elif isinstance(s, ast.AnnAssign):
-            if s.value is not None:
-                expr_tokens(s.value, out)
-        elif isinstance(s, ast.Raise):
-            need(s.exc is not None, 'bare raise')
-            exc = s.exc.func if isinstance(s.exc, ast.Call) else s.exc
-            out.append('raise ' + u(exc))
-        elif isinstance(s, ast.Delete):
-            for t in s.targets:
-                out.append('del ' + u(t))
-        elif isinstance(s, ast.Return):
-            if s.value is not None:
-                expr_tokens(s.value, out)
-            out.append('return')
-        elif isinstance(s, ast.If):
-            out.append('if ' + u(s.test))
-            expr_tokens(s.test, out)
-            stmt_tokens(s.body, out)
-            if s.orelse:
-                out.append('else')
-                stmt_tokens(s.orelse, out)
-            out.append('endif')
-        elif isinstance(s, ast.For):
-            out.append('for ' + u(s.iter))
-            expr_tokens(s.iter, out)
-            stmt_tokens(s.body, out)
-            need(not s.orelse, 'for-else')
-            out.append('endfor')
-        elif isinstance(s, ast.Try):
-            out.append('try')
-            stmt_tokens(s.body, out)
-            for h in s.handlers:
-                need(h.type is not None, 'bare except')
-                out.append('except ' + u(h.type))
-                stmt_tokens(h.body, out)
-            if s.orelse:
-                out.append('else')
-                stmt_tokens(s.orelse, out)
-            need(not s.finalbody, 'try-finally')
-            out.append('endtry')
-        elif isinstance(s, ast.FunctionDef):
-            out.append('def ' + s.name)
-        elif isinstance(s, ast.Assert):
-            pass
+class Summary:
+    def __init__(self, scope):
+        self.scope = scope
+        self.tokens = set()
+        self.returns = set()
+
+    # ---- values ------------------------------------------------------------------------------------
+    def atoms(self, e, env, depth=0):
+        if e is None:
+            return set()
+        if isinstance(e, ast.Constant):
+            if isinstance(e.value, str):
+                return {'str:' + e.value}
+            if e.value is None or isinstance(e.value, bool):
+                return set()
+            return {'const:%r' % (e.value,)}
+        if isinstance(e, ast.Name):
+            if e.id in env:
+                return set(env[e.id])
+            return {e.id}
+        if isinstance(e, ast.Attribute):
+            base = self.atoms(e.value, env, depth)
+            out = set()
+            attr = '_' if private(e.attr) else e.attr
+            for b in base or {anon(u(e.value))}:
+                out.add(b + '.' + attr if not b.startswith(('str:', 'const:')) else b)
+            return out
+        if isinstance(e, ast.Call):
+            return self.call(e, env, depth)
+        if isinstance(e, ast.IfExp):
+            self.test(e.test, env, depth)
+            return self.atoms(e.body, env, depth) | self.atoms(e.orelse, env, depth)
+        if isinstance(e, (ast.List, ast.Tuple, ast.Set)):
+            out = set()
+            for x in e.elts:
+                out |= self.atoms(x, env, depth)
+            return out
+        if isinstance(e, ast.Dict):
+            out = set()
+            for x in list(e.keys) + list(e.values):
+                out |= self.atoms(x, env, depth)
+            return out
+        if isinstance(e, ast.Subscript):
+            base = anon(u(e.value)) if not isinstance(e.value, ast.Name) or e.value.id not in env else None
+            self.atoms(e.slice, env, depth)
+            if base is not None and base.startswith('self.'):
+                self.tokens.add('index ' + base)
+                if (base, '[]') in STREAM_SOURCES:
+                    return {'stream'}
+                if (base, '[]') in TASK_SOURCES:
+                    return {'task'}
+                return {base + '[]'}
+            return {a + '[]' for a in self.atoms(e.value, env, depth)}
+        if isinstance(e, ast.BinOp):
+            return self.atoms(e.left, env, depth) | self.atoms(e.right, env, depth)
+        if isinstance(e, ast.BoolOp):
+            out = set()
+            for v in e.values:
+                out |= self.atoms(v, env, depth)
+            return out
+        if isinstance(e, ast.UnaryOp):
+            return self.atoms(e.operand, env, depth)
+        if isinstance(e, ast.Compare):
+            out = self.atoms(e.left, env, depth)
+            for c in e.comparators:
+                out |= self.atoms(c, env, depth)
+            return out
+        if isinstance(e, ast.JoinedStr):
+            out = set()
+            for v in e.values:
+                out |= self.atoms(v.value if isinstance(v, ast.FormattedValue) else v, env, depth)
+            return out
+        if isinstance(e, ast.Lambda):
+            return {'lambda'}
+        if isinstance(e, (ast.ListComp, ast.SetComp, ast.GeneratorExp, ast.DictComp)):
+            env2 = dict(env)
+            for g in e.generators:
+                self.bind(g.target, self.atoms(g.iter, env2, depth), env2)
+                for c in g.ifs:
+                    self.test(c, env2, depth)
+            if isinstance(e, ast.DictComp):
+                return self.atoms(e.key, env2, depth) | self.atoms(e.value, env2, depth)
+            return self.atoms(e.elt, env2, depth)
+        if isinstance(e, ast.Await):
+            return self.atoms(e.value, env, depth)
+        if isinstance(e, ast.Starred):
+            return self.atoms(e.value, env, depth)
+        raise Unsupported('C12 facts: expression ' + type(e).__name__ + ': ' + u(e)[:80])
+
+    def show(self, atoms):
+        return '{' + ', '.join(sorted(atoms)) + '}'
+
+    def call(self, e, env, depth):
+        args = [self.atoms(a, env, depth) for a in e.args] + \
+               [self.atoms(k.value, env, depth) for k in e.keywords]
+        h = self.scope.helper(e)
+        if h is not None:
+            fn, skip = h
+            need(depth < MAX_DEPTH, 'helper inlining too deep: ' + u(e.func))
+            params = [a.arg for a in fn.args.args][1 if skip else 0:]
+            env2 = {'self': {'self'}}
+            for i, p in enumerate(params):
+                env2[p] = args[i] if i < len(args) else set()
+            for k in e.keywords:
+                if k.arg in params:
+                    env2[k.arg] = self.atoms(k.value, env, depth)
+            sub = Summary(self.scope)
+            sub.stmts(fn.body, env2, depth + 1)
+            self.tokens |= sub.tokens
+            return sub.returns
+        f = e.func
+        name = u(f)
+        if isinstance(f, ast.Name):
+            if f.id in ('getattr', 'hasattr'):
+                # getattr(self, 'x', d) reads self.x tolerantly; hasattr(...) is a guard
+                if f.id == 'getattr' and len(e.args) >= 2 and isinstance(e.args[1], ast.Constant):
+                    return {b + '.' + str(e.args[1].value) for b in args[0]}
+                return set()
+            if f.id in PURE_FUNCS:
+                out = set()
+                for a in args:
+                    out |= a
+                if f.id == 'len':
+                    return {'len(' + ', '.join(sorted(out)) + ')'}
+                return out
+            if f.id in env:                                  # a callable held by a local / parameter
+                for callee in sorted(env[f.id]):
+                    self.tokens.add('call %s(%s)' % (callee, '; '.join(self.show(a) for a in args)))
+                return {c + '()' for c in env[f.id]}
+            if f.id[:1].isupper():                           # constructor (exception, Stream, Wrapper)
+                out = {'new:' + f.id}
+                for a in args:
+                    out |= a
+                return out
+            self.tokens.add('call %s(%s)' % (f.id, '; '.join(self.show(a) for a in args)))
+            return {f.id + '()'}
+        need(isinstance(f, ast.Attribute), 'call of ' + name)
+        root = name.split('.')[0]
+        if root in LOG_ROOTS:
+            return set()
+        if f.attr == 'format':
+            out = self.atoms(f.value, env, depth)
+            for a in args:
+                out |= a
+            return out
+        if name in ('time.monotonic', 'time.time'):
+            return {name + '()'}
+        recv_src = anon(u(f.value))
+        recv = self.atoms(f.value, env, depth)
+        # container protocol on self.<container> (also through an alias obtained with getattr)
+        containers = {r for r in recv if r.startswith('self.') or r == '_streams'}
+        if f.attr in ('get', 'values', 'items', 'keys', 'pop', 'setdefault') and containers and \
+                all(r.count('.') == 1 or r == '_streams' for r in containers):
+            for r in sorted(containers):
+                self.tokens.add('%s %s%s' % (f.attr, r, '/%d' % len(args) if f.attr == 'pop' else ''))
+                if (r, f.attr) in STREAM_SOURCES:
+                    return {'stream'}
+                if (r, f.attr) in TASK_SOURCES:
+                    return {'task'}
+            return {r + '.' + f.attr + '()' for r in containers}
+        for r in sorted(recv or {recv_src}):
+            if (r, f.attr) in STREAM_SOURCES:
+                self.tokens.add('call %s.%s(%s)' % (r, f.attr, '; '.join(self.show(a) for a in args)))
+                return {'stream'}
+            if (r, f.attr) in TASK_SOURCES:
+                self.tokens.add('call %s.%s(%s)' % (r, f.attr, '; '.join(self.show(a) for a in args)))
+                return {'task'}
+        for r in sorted(recv or {recv_src}):
+            if r.startswith(('str:', 'const:')):
+                continue
+            self.tokens.add('call %s.%s(%s)' % (r, f.attr, '; '.join(self.show(a) for a in args)))
+        return {r + '.' + f.attr + '()' for r in (recv or {recv_src})}
+
+    # ---- conditions --------------------------------------------------------------------------------
+    def test(self, t, env, depth):
+        """record conditions on the event's fields / parameters; None and hasattr guards are not recorded
+        (whether a lookup tolerates absence is recorded by get-versus-index)"""
+        if isinstance(t, ast.BoolOp):
+            for v in t.values:
+                self.test(v, env, depth)
+            return
+        if isinstance(t, ast.UnaryOp) and isinstance(t.op, ast.Not):
+            self.test(t.operand, env, depth)
+            return
+        if isinstance(t, ast.Compare) and len(t.ops) == 1 and isinstance(t.ops[0], (ast.Is, ast.IsNot)) \
+                and isinstance(t.comparators[0], ast.Constant) and t.comparators[0].value is None:
+            self.atoms(t.left, env, depth)
+            return
+        if isinstance(t, ast.Call) and isinstance(t.func, ast.Name) and t.func.id == 'hasattr':
+            return
+        a = self.atoms(t, env, depth)
+        if any(x.startswith(('event', 'arg', 'self.', 'stream', 'task')) or x in ('size', 'reason', 'data')
+               for x in a):
+            self.tokens.add('test ' + self.show(a))
+
+    # ---- statements --------------------------------------------------------------------------------
+    def bind(self, target, value, env):
+        if isinstance(target, ast.Name):
+            env[target.id] = set(env.get(target.id, set())) | set(value)
+        elif isinstance(target, (ast.Tuple, ast.List)):
+            for x in target.elts:
+                self.bind(x, value, env)
+        elif isinstance(target, ast.Attribute):
+            for b in sorted(self.atoms(target.value, env) or {anon(u(target.value))}):
+                self.tokens.add('set %s.%s <- %s' % (b, '_' if private(target.attr) else target.attr,
+                                                   self.show(value)))
+        elif isinstance(target, ast.Subscript):
+            for b in sorted(self.atoms(target.value, env) or {anon(u(target.value))}):
+                self.tokens.add('setitem %s' % b)
         else:
-            raise Unsupported('C12 facts: statement ' + type(s).__name__ + ': ' + u(s)[:80])
+            raise Unsupported('C12 facts: assignment target ' + u(target))
+
+    def tolerant_del(self, node, guards):
+        return any(g == 'hasattr' or g == 'catch AttributeError' for g in guards)
+
+    def stmts(self, body, env, depth=0, guards=()):
+        for s in strip_doc(body):
+            if isinstance(s, (ast.Pass, ast.Assert, ast.Import, ast.ImportFrom, ast.Global, ast.Nonlocal)):
+                continue
+            if isinstance(s, ast.Expr):
+                self.atoms(s.value, env, depth)
+            elif isinstance(s, ast.Assign):
+                v = self.atoms(s.value, env, depth)
+                for t in s.targets:
+                    self.bind(t, v, env)
+            elif isinstance(s, ast.AugAssign):
+                v = self.atoms(s.value, env, depth)
+                self.bind(s.target, v | {'+='}, env)
+            elif isinstance(s, ast.AnnAssign):
+                if s.value is not None:
+                    self.bind(s.target, self.atoms(s.value, env, depth), env)
+            elif isinstance(s, ast.Return):
+                self.returns |= self.atoms(s.value, env, depth)
+            elif isinstance(s, ast.Raise):
+                need(s.exc is not None, 'bare raise')
+                exc = s.exc.func if isinstance(s.exc, ast.Call) else s.exc
+                self.atoms(s.exc, env, depth)
+                self.tokens.add('raise ' + u(exc))
+            elif isinstance(s, ast.Delete):
+                for t in s.targets:
+                    self.tokens.add(('del-tolerant ' if self.tolerant_del(t, guards) else 'del ') + anon(u(t)))
+            elif isinstance(s, ast.If):
+                self.test(s.test, env, depth)
+                g = guards + (('hasattr',) if 'hasattr(' in u(s.test) else ())
+                self.stmts(s.body, env, depth, g)
+                self.stmts(s.orelse, env, depth, guards)
+            elif isinstance(s, (ast.For, ast.AsyncFor)):
+                self.bind(s.target, self.atoms(s.iter, env, depth), env)
+                self.stmts(s.body, env, depth, guards)
+                self.stmts(s.orelse, env, depth, guards)
+            elif isinstance(s, ast.While):
+                self.test(s.test, env, depth)
+                self.stmts(s.body, env, depth, guards)
+            elif isinstance(s, ast.Try):
+                caught = []
+                for h in s.handlers:
+                    need(h.type is not None, 'bare except')
+                    names = [u(x) for x in (h.type.elts if isinstance(h.type, ast.Tuple) else [h.type])]
+                    caught += names
+                g = guards + tuple('catch ' + n for n in caught)
+                self.stmts(s.body, env, depth, g)
+                only_attr = set(caught) <= {'AttributeError'} and all(
+                    isinstance(x, ast.Delete) for x in strip_doc(s.body))
+                if not only_attr:       # try: del x / except AttributeError: pass  ==  a tolerant delete
+                    self.tokens.add('catch ' + ', '.join(sorted(set(caught))))
+                for h in s.handlers:
+                    self.stmts(h.body, env, depth, guards)
+                self.stmts(s.orelse, env, depth, guards)
+                self.stmts(s.finalbody, env, depth, guards)
+            elif isinstance(s, (ast.With, ast.AsyncWith)):
+                for it in s.items:
+                    v = self.atoms(it.context_expr, env, depth)
+                    if it.optional_vars is not None:
+                        self.bind(it.optional_vars, v, env)
+                self.stmts(s.body, env, depth, guards)
+            elif isinstance(s, (ast.FunctionDef, ast.AsyncFunctionDef)):
+                self.tokens.add('def ' + s.name)
+            else:
+                raise Unsupported('C12 facts: statement ' + type(s).__name__ + ': ' + u(s)[:80])
 
 
-def shape(tree, cls, name):
-    out = []
-    stmt_tokens(func_node(tree, name, cls).body, out)
-    return out
+def method(tree, cls, name):
+    for n in tree.body:
+        if isinstance(n, ast.ClassDef) and n.name == cls:
+            for m in n.body:
+                if isinstance(m, (ast.FunctionDef, ast.AsyncFunctionDef)) and m.name == name:
+                    return m
+    raise Unsupported('C12 facts: %s.%s not found' % (cls, name))
+
+
+def summarise(tree, cls, name, roles):
+    """roles: canonical atom for each parameter after self, by position"""
+    fn = method(tree, cls, name)
+    params = [a.arg for a in fn.args.args][1:]
+    need(len(params) <= len(roles), '%s.%s has more parameters than expected' % (cls, name))
+    env = {'self': {'self'}}
+    for p, r in zip(params, roles):
+        env[p] = {r}
+    s = Summary(Scope(tree, cls))
+    s.stmts(fn.body, env)
+    toks = set(s.tokens)
+    if s.returns - {'stream'}:
+        toks.add('returns ' + s.show(s.returns))
+    return sorted(toks)
+
+
+# ---- EventsProcessor.process: dispatch semantics -----------------------------------------------------
+
+def dispatch_summary(tree):
+    """is a missing table / a missing key tolerated, is the handler called with the event, any raise"""
+    scope = Scope(tree, 'EventsProcessor')
+    fn = method(tree, 'EventsProcessor', 'process')
+    params = [a.arg for a in fn.args.args]
+    need(len(params) == 2, 'process(self, event)')
+    ev = params[1]
+    aliases = set()          # locals holding the processors table
+    found = {'table': [], 'key': [], 'called': False, 'raises': False}
+
+    def is_table(e):
+        return (isinstance(e, ast.Attribute) and u(e) == 'self.processors') or \
+               (isinstance(e, ast.Name) and e.id in aliases)
+
+    def walk(body, guards):
+        for s in strip_doc(body):
+            need(scope.helper(s.value) is None if isinstance(s, ast.Expr) and isinstance(s.value, ast.Call)
+                 else True, 'process delegates to a private helper')
+            if isinstance(s, ast.Try):
+                caught = []
+                for h in s.handlers:
+                    need(h.type is not None, 'bare except in process')
+                    caught += [u(x) for x in (h.type.elts if isinstance(h.type, ast.Tuple) else [h.type])]
+                walk(s.body, guards | set(caught))
+                for h in s.handlers:
+                    walk(h.body, guards)
+                walk(s.orelse, guards)
+                walk(s.finalbody, guards)
+                continue
+            if isinstance(s, ast.If):
+                g2 = set(guards)
+                t = u(s.test)
+                exprs(s.test, guards)
+                if 'hasattr(self' in t and 'processors' in t:
+                    g2.add('AttributeError')
+                if any(isinstance(c, ast.Compare) and any(isinstance(o, (ast.In, ast.NotIn)) for o in c.ops)
+                       and any(is_table(x) for x in c.comparators) for c in ast.walk(s.test)):
+                    g2.add('KeyError')
+                # an `if <absent>: return` chain guards what follows as well; keep it simple: both
+                # branches and the rest of the body are examined under the guards established so far
+                walk(s.body, g2)
+                walk(s.orelse, g2)
+                continue
+            if isinstance(s, ast.Raise):
+                found['raises'] = True
+                continue
+            if isinstance(s, (ast.Return, ast.Expr, ast.Assign, ast.AnnAssign)):
+                v = getattr(s, 'value', None)
+                if v is not None:
+                    exprs(v, guards)
+                if isinstance(s, ast.Assign) and len(s.targets) == 1 and isinstance(s.targets[0], ast.Name):
+                    # alias of the table: x = self.processors / getattr(self, 'processors', d)
+                    if is_table(s.value) or (isinstance(s.value, ast.Call) and u(s.value.func) == 'getattr'
+                                             and len(s.value.args) >= 2 and u(s.value.args[0]) == 'self'
+                                             and u(s.value.args[1]) == "'processors'"):
+                        aliases.add(s.targets[0].id)
+                continue
+            if isinstance(s, ast.Pass):
+                continue
+            raise Unsupported('C12 facts: statement in process: ' + u(s)[:60])
+
+    def exprs(e, guards):
+        for n in ast.walk(e):
+            if isinstance(n, ast.Attribute) and u(n) == 'self.processors':
+                found['table'].append('AttributeError' in guards or 'Exception' in guards)
+            if isinstance(n, ast.Call) and u(n.func) == 'getattr' and len(n.args) >= 2 and \
+                    u(n.args[0]) == 'self' and u(n.args[1]) == "'processors'":
+                found['table'].append(len(n.args) == 3)
+            if isinstance(n, ast.Subscript) and is_table(n.value):
+                found['key'].append(bool({'KeyError', 'LookupError', 'Exception'} & guards))
+            if isinstance(n, ast.Call) and isinstance(n.func, ast.Attribute) and n.func.attr == 'get' \
+                    and is_table(n.func.value):
+                found['key'].append(True)
+            if isinstance(n, ast.Call) and len(n.args) == 1 and isinstance(n.args[0], ast.Name) \
+                    and n.args[0].id == ev and not (isinstance(n.func, ast.Attribute)
+                                                    and u(n.func).split('.')[0] in LOG_ROOTS):
+                if isinstance(n.func, ast.Name) or isinstance(n.func, ast.Subscript) or \
+                        (isinstance(n.func, ast.Call)):
+                    found['called'] = True
+
+    walk(fn.body, set())
+    need(found['table'] or aliases, 'process does not read self.processors')
+    need(found['key'], 'process does not look the event class up')
+    keyed = any('__class__' in u(n) or 'type(' in u(n) for n in ast.walk(fn))
+    out = ['dispatch: by the class of the event' if keyed else 'dispatch: by something else',
+           'dispatch: missing table ' + ('tolerated' if all(found['table']) else 'RAISES'),
+           'dispatch: missing key ' + ('tolerated' if all(found['key']) else 'RAISES'),
+           'dispatch: handler ' + ('called with the event' if found['called'] else 'NOT called')]
+    if found['raises']:
+        out.append('dispatch: raise statement')
+    return sorted(out)
 
 
 def processors_methods(pr):
-    init = func_node(pr, '__init__', 'EventsProcessor')
+    init = method(pr, 'EventsProcessor', '__init__')
     for s in ast.walk(init):
         if isinstance(s, ast.Assign) and u(s.targets[0]) == 'self.processors':
             need(isinstance(s.value, ast.Dict), 'processors is not a dict literal')
@@ -186,78 +515,38 @@ def processors_methods(pr):
     raise Unsupported('C12 facts: processors not found')
 
 
-def reason_strings(repo):
-    """{'protocol_error': ..., 'connection_lost': ..., 'connection_closed': ..., 'remote_reset': ...,
-    'goaway': ...} -- the texts given to close()/__terminated__ ({} = the error code)"""
+def rows(repo):
     pr = parse(repo, 'grpclib/protocol.py')
-    out = {}
-    # H2Protocol.data_received: self.processor.close('Protocol error')
-    for n in ast.walk(func_node(pr, 'data_received', 'H2Protocol')):
-        if isinstance(n, ast.Call) and u(n.func) == 'self.processor.close':
-            need(len(n.args) == 1 and isinstance(n.args[0], ast.Constant), 'close() argument in data_received')
-            out['protocol_error'] = n.args[0].value
-    for n in ast.walk(func_node(pr, 'connection_lost', 'H2Protocol')):
-        if isinstance(n, ast.Call) and u(n.func) == 'self.processor.close':
-            need(len(n.keywords) == 1 and isinstance(n.keywords[0].value, ast.Constant),
-                 'close() argument in connection_lost')
-            out['connection_lost'] = n.keywords[0].value.value
-    close = func_node(pr, 'close', 'EventsProcessor')
-    need(len(close.args.defaults) == 1 and isinstance(close.args.defaults[0], ast.Constant),
-         'default reason of EventsProcessor.close')
-    out['connection_closed'] = close.args.defaults[0].value
-
-    def fmt_const(fn, cls):
-        found = []
-        for n in ast.walk(func_node(pr, fn, cls)):
-            if isinstance(n, ast.Call) and isinstance(n.func, ast.Attribute) and n.func.attr == 'format' \
-                    and isinstance(n.func.value, ast.Constant):
-                found.append(n.func.value.value)
-        need(len(found) == 1, 'one format string in ' + fn)
-        return found[0]
-    out['remote_reset'] = fmt_const('process_stream_reset', 'EventsProcessor')
-    out['goaway'] = fmt_const('process_connection_terminated', 'EventsProcessor')
-    local = [n.value for n in ast.walk(func_node(pr, 'process_stream_reset', 'EventsProcessor'))
-             if isinstance(n, ast.Assign) and isinstance(n.value, ast.Constant)]
-    need(len(local) == 1, 'local-reset text in process_stream_reset')
-    out['local_reset'] = local[0].value
-    need(set(out) == {'protocol_error', 'connection_lost', 'connection_closed', 'remote_reset', 'goaway',
-                      'local_reset'}, 'reason strings incomplete: %r' % sorted(out))
+    cl = parse(repo, 'grpclib/client.py')
+    sv = parse(repo, 'grpclib/server.py')
+    out = [('EventsProcessor.process', dispatch_summary(pr))]
+    for m in processors_methods(pr):
+        out.append(('EventsProcessor.' + m, summarise(pr, 'EventsProcessor', m, ['event'])))
+    out.append(('EventsProcessor.close', summarise(pr, 'EventsProcessor', 'close', ['reason'])))
+    out.append(('Connection.ack', summarise(pr, 'Connection', 'ack', ['arg1', 'size'])))
+    out.append(('Stream.__terminated__', summarise(pr, 'Stream', '__terminated__', ['reason'])))
+    out.append(('Stream.__ended__', summarise(pr, 'Stream', '__ended__', [])))
+    out.append(('Stream.closable', summarise(pr, 'Stream', 'closable', [])))
+    out.append(('Stream.reset_nowait', summarise(pr, 'Stream', 'reset_nowait', ['arg1'])))
+    out.append(('H2Protocol.data_received', summarise(pr, 'H2Protocol', 'data_received', ['data'])))
+    out.append(('H2Protocol.connection_lost', summarise(pr, 'H2Protocol', 'connection_lost', ['arg1'])))
+    for f, roles in (('accept', ['stream', 'headers', 'release_stream']), ('cancel', ['stream']), ('close', [])):
+        out.append(('client.Handler.' + f, summarise(cl, 'Handler', f, roles)))
+    for f, roles in (('accept', ['stream', 'headers', 'release_stream']), ('cancel', ['stream']), ('close', [])):
+        out.append(('server.Handler.' + f, summarise(sv, 'Handler', f, roles)))
     return out
 
 
 def generate(repo):
-    pr = parse(repo, 'grpclib/protocol.py')
-    cl = parse(repo, 'grpclib/client.py')
-    sv = parse(repo, 'grpclib/server.py')
-    rows = []
-    rows.append(('EventsProcessor.process', shape(pr, 'EventsProcessor', 'process')))
-    for m in processors_methods(pr):
-        rows.append(('EventsProcessor.' + m, shape(pr, 'EventsProcessor', m)))
-    rows.append(('EventsProcessor.close', shape(pr, 'EventsProcessor', 'close')))
-    rows.append(('Connection.ack', shape(pr, 'Connection', 'ack')))
-    rows.append(('Connection.close', shape(pr, 'Connection', 'close')))
-    rows.append(('Stream.__terminated__', shape(pr, 'Stream', '__terminated__')))
-    rows.append(('Stream.__ended__', shape(pr, 'Stream', '__ended__')))
-    rows.append(('Stream.closable', shape(pr, 'Stream', 'closable')))
-    rows.append(('Stream.reset_nowait', shape(pr, 'Stream', 'reset_nowait')))
-    rows.append(('H2Protocol.data_received', shape(pr, 'H2Protocol', 'data_received')))
-    rows.append(('H2Protocol.connection_lost', shape(pr, 'H2Protocol', 'connection_lost')))
-    for f in ('accept', 'cancel', 'close'):
-        rows.append(('client.Handler.' + f, shape(cl, 'Handler', f)))
-    for f in ('accept', 'cancel', 'close'):
-        rows.append(('server.Handler.' + f, shape(sv, 'Handler', f)))
-    rs = reason_strings(repo)
+    rs = rows(repo)
     L = ['(* GENERATED by tools/facts_C12.py from /repo -- do not edit; rewritten on every run *)',
          'From Coq Require Import ZArith List.', 'Import ListNotations.', 'Open Scope Z_scope.', '',
-         '(* effect tokens, in source order, of every function Model/Dispatch.v transcribes *)',
+         '(* effect summaries (sorted sets, private helpers seen through, locals abstracted) of every function',
+         '   Model/Dispatch.v transcribes *)',
          'Definition input_path_shape : list (list Z * list (list Z)) := [']
-    L.append(';\n'.join('  (* %s: %s *)\n  (%s, [%s])' % (n, ' | '.join(t).replace('*)', '* )'), zs(n),
-                                                        '; '.join(zs(x) for x in t)) for n, t in rows))
+    L.append(';\n'.join('  (* %s: %s *)\n  (%s, [%s])' % (n, ' | '.join(t).replace('*)', '* )').replace('(*', '( *'),
+                                                        zs(n), '; '.join(zs(x) for x in t)) for n, t in rs))
     L.append('].')
-    L.append('')
-    L.append('(* texts given to close() / __terminated__ *)')
-    L.append('Definition reason_strings : list (list Z * list Z) := [%s].' % '; '.join(
-        '(%s, %s)' % (zs(k), zs(v)) for k, v in sorted(rs.items())))
     return '\n'.join(L) + '\n'
 
 
